@@ -25,16 +25,24 @@ CFG = {
                   "narrow/wide, CR, LF, IND, NEL, RI, CUP/HVP, CHA/HPA, VPA, CUU, CUD, CUF, CUB, CNL, CPL, EL, ED, ECH, ICH, DCH, IL, DL, SU, SD, "
                   "DECSTBM, DECSC, DECRC, ?1049h/l) with every parameter value, the emulator step succeeds and is accepted by the reference "
                   "(accept-sets) unless the reference leaves it unconstrained; lifted to all histories from start-up (emu_refines_histories, "
-                  "emu_refines_from_start). Witness/F21,F22,F54,F106a-c prove the statement was false before the repairs.",
+                  "emu_refines_from_start). Round 3: also CUP/HVP/DECSTBM with more than two parameters (emu_refines_term_two), OSC 8 hyperlinks "
+                  "through the real dispatcher (emu_refines_term_osc8; Spec.Term has the token osc8), RIS from every state (emu_refines_term_ris), "
+                  "and all histories over the extended vocabulary incl. long parameter lists, CUP/DECSTBM beyond two parameters and RIS "
+                  "(emu_refines_histories_X, emu_refines_from_start_X). Witness/F21,F22,F54,F106a-e prove the statement was false before the repairs.",
     "level_note": "Proved for all states/parameters/histories: every operation of the vocabulary, SGR included (emu_refines_term_all, "
                   "emu_refines_histories_all, emu_refines_from_start_all; sgr_refines_spec: on every well-formed SGR sequence the emulator's pen "
                   "abstracts to Spec.sgr). Restrictions: grapheme string non-empty (the parser never emits an empty one); non-SGR parameters with "
-                  "sub-parameters / more than two parameters are outside tokOf; SGR 6, 21, values > 255 and four malformed SGR shapes (notes/C06.md "
+                  "colon sub-parameters in a parameter the function reads are outside tokOfX on purpose (terminal specific: xterm ignores such a "
+                  "sequence; emu_subparams_ignored states what the emulator does: the main value is used); OSC 8 is proved as one step, its "
+                  "composition into the history theorem is open (needs a frame lemma for vt.OSC8 over every function); DECSTR has no arm in csi() "
+                  "(ignored; noted, not judged); SGR 6, 21, values > 255 and four malformed SGR shapes (notes/C06.md "
                   "D1-D4) are terminal specific and outside the judged vocabulary. Model tied to the source by Gen/TermModes.lean (dispatch through "
                   "the regenerated tables) and by the C05 correspondence stream (snapshot after every op, incl. a slice of the C06 sequences); "
                   "the reference is additionally evaluated as oracle on the IMPLEMENTATION after every op of the bounded-exhaustive and random "
                   "histories (driver C06, independent of the transcribed functions; since round 2 through tokOfX, the random generator appends "
-                  "1-3 further parameters to every fifth one-parameter function). Spec adjustments vs Appendix A (accept-sets added): DECRC "
+                  "1-3 further parameters to every fifth one-parameter function; round 3: also to every fifth two-parameter CUP/HVP/DECSTBM, and it "
+                  "sends OSC 8 and RIS; T.accepts compares the pen's hyperlink too). The bodies of sgr(), osc(), ris(), decset()/decrst(), cup(), "
+                  "decstbm() are tied to the source structurally as well (body_<fn> in Props/C05Bodies.lean). Spec adjustments vs Appendix A (accept-sets added): DECRC "
                   "may restore the pending-wrap flag; ?1049h may clear with the current background.",
     "technique": "Lean 4 proof (refinement of an abstract reference terminal) + oracle evaluation on the real code",
     "timeout": 2400,
